@@ -80,6 +80,17 @@ static std::string body(Tok &t) {
         S::params prm; setup(prm, maxiter);
         S solve(A, prm); return result(solve(f, x), x);
     }
+    if (variant == "mbs_bv") {
+        // the same solver called with BLOCK-typed vectors (std::vector<static_matrix<Q,b,1>>): reinterpret_as_rhs is then the identity view
+        typedef make_block_solver< amg<BB, coarsening::smoothed_aggregation, relaxation::spai0>, solver::cg<BB> > S;
+        S::params prm; setup(prm, maxiter);
+        S solve(A, prm);
+        size_t nb = a.n / BLK_B; std::vector<RT> F(nb), X(nb);
+        for (size_t i = 0; i < nb; ++i) for (int k = 0; k < BLK_B; ++k) { F[i](k) = f[i * BLK_B + k]; X[i](k) = Q(0); }
+        auto r = solve(F, X);
+        for (size_t i = 0; i < nb; ++i) for (int k = 0; k < BLK_B; ++k) x[i * BLK_B + k] = X[i](k);
+        return result(r, x);
+    }
     if (variant == "direct") {
         typedef make_block_solver< amg<BB, coarsening::aggregation, relaxation::damped_jacobi>, solver::preonly<BB> > S;
         S::params prm; prm.precond.coarse_enough = 1000000;
